@@ -1420,7 +1420,9 @@ fn c18(cx: &mut Ctx<'_, '_>) {
         }
         // with everything available at the first dispatch the first batch fills min(limit, scenarios)
         let any_serial = an.sc.values().any(|i| i.serial);
-        if !an.case.is_lazy() && !any_serial && an.out.end == End::Ended && c.cli_concurrency.is_some() {
+        // (a parser error under fail-fast, or a first failure, cuts the supply short)
+        let all_supplied = an.pulled_items.len() == an.case.items.len() && !(c.fail_fast() && (an.first_final_failure.is_some() || an.out.evs.iter().any(|r| matches!(r.ev, Ev::ParseErr(_)))));
+        if !an.case.is_lazy() && !any_serial && all_supplied && an.out.end == End::Ended && c.cli_concurrency.is_some() {
             let n = an.sc.len() as i64;
             let want = c.limit().map_or(n, |k| (k as i64).min(n));
             if peak < want {
@@ -1441,6 +1443,20 @@ fn c18(cx: &mut Ctx<'_, '_>) {
                 if late >= k {
                     cx.viol("C18", "merge:fail-fast-ignored", format!("fail-fast set (cli {}, builder {}) but {late} attempts started after the first final failure", c.cli_ff, c.b_ff), json!(null));
                 }
+            }
+        }
+        // "--fail-fast adds to the builder settings" also where the parser stream is consumed: with
+        // either of them set nothing is ingested after the first parser error, with neither all is
+        if let Some(epos) = an.pulled_items.iter().position(|&i| !matches!(an.case.items[i], Item::Feat(_))) {
+            let after = an.pulled_items.len() - epos - 1;
+            if expected_ff && after > 0 {
+                cx.viol("C18", "merge:fail-fast-ignored", format!("fail-fast set (cli {}, builder {}) but {after} more item(s) were ingested after the first parser error", c.cli_ff, c.b_ff), json!(null));
+            }
+            if !expected_ff && an.out.end == End::Ended && an.pulled_items.len() != an.case.items.len() {
+                cx.viol("C18", "merge:fail-fast-without-being-set", format!("only {} of {} parser items were ingested although neither --fail-fast nor fail_fast() is set", an.pulled_items.len(), an.case.items.len()), json!(null));
+            }
+            if c.cli_ff != c.b_ff {
+                cx.t.nontrivial("C18", fnv(&format!("merge-ingest|{}|{}|{epos}|{}", c.cli_ff, c.b_ff, an.case.items.len())));
             }
         }
         if both_differ || (c.cli_ff != c.b_ff) {
